@@ -414,6 +414,11 @@ Definition h_reset_d (k : wkind) (st : hstate) (s : bytes) (cls : N) (y : bytes)
        match u with UOk => y | _ => [] end,
    sx_ures u, match u with UCrash => true | _ => false end).
 
+(* Write / Close on a library writer that never had a destination: left open by the contract,
+   not a case (the identity compressor is this repository's code and is covered) *)
+Definition unsourced_writer (k : wkind) (p : cpos) : bool :=
+  match k, p with KIdent, _ => false | _, CFresh => true | _, _ => false end.
+
 Definition h_step (k : wkind) (st : hstate) (op : hop) : option (hstate * sx * bool) :=
   match op with
   | HCReset id =>
@@ -421,6 +426,7 @@ Definition h_step (k : wkind) (st : hstate) (op : hop) : option (hstate * sx * b
     Some (mkH c' st.(h_d) COpen id [] [] st.(h_sinks) st.(h_dpos) st.(h_rem),
           sx_ures u, match u with UCrash => true | _ => false end)
   | HCWrite b =>
+    if unsourced_writer k st.(h_cpos) then None else
     let '(c', u, out) := toy_c_step st.(h_c) (CWrite b) in
     let open := match st.(h_cpos) with COpen => true | _ => false end in
     Some (mkH c' st.(h_d) st.(h_cpos) st.(h_cur) (st.(h_sink) ++ out)
@@ -428,6 +434,7 @@ Definition h_step (k : wkind) (st : hstate) (op : hop) : option (hstate * sx * b
               st.(h_sinks) st.(h_dpos) st.(h_rem),
           (if open then sx_ures u else sx_any_u u), match u with UCrash => true | _ => false end)
   | HCClose =>
+    if unsourced_writer k st.(h_cpos) then None else
     let '(c', u, out) := toy_c_step st.(h_c) CClose in
     let content := st.(h_sink) ++ out in
     match st.(h_cpos) with
